@@ -35,6 +35,7 @@ type World struct {
 	assumedUsed    map[string]bool
 	axiomsUsed     map[string]bool
 	baseSentinels  []string // error globals initialised directly by errors.New (the base classes)
+	derivedFrom    [][2]string // (D, B): error global D is initialised by fmt.Errorf wrapping (%w) error global B
 }
 
 const rootPath = "github.com/veraison/psatoken"
@@ -148,6 +149,9 @@ func loadWorld(repo, verifDir string) (*World, error) {
 				if !ok {
 					continue
 				}
+				if callee := call.Call.StaticCallee(); callee != nil && callee.Pkg != nil && callee.Pkg.Pkg.Path() == "fmt" && callee.Name() == "Errorf" {
+					w.noteDerived(sp.Pkg.Name(), g, call)
+				}
 				if callee := call.Call.StaticCallee(); callee != nil && callee.Pkg != nil && callee.Pkg.Pkg.Path() == "errors" && callee.Name() == "New" {
 					w.baseSentinels = append(w.baseSentinels, sp.Pkg.Name()+"."+g.Name())
 				}
@@ -161,6 +165,49 @@ func loadWorld(repo, verifDir string) (*World, error) {
 	}
 	sort.Strings(w.baseSentinels)
 	return w, nil
+}
+
+// noteDerived records that error global g is built by fmt.Errorf with a %w verb applied to another
+// error global of the same package: errors.Is(e, g) then implies errors.Is(e, that global) for
+// every e (wrapping is transitive) -- used to close error classes in the VCs.
+func (w *World) noteDerived(pkg string, g *ssa.Global, call *ssa.Call) {
+	if len(call.Call.Args) < 2 {
+		return
+	}
+	fc, ok := call.Call.Args[0].(*ssa.Const)
+	if !ok || !strings.Contains(constantString(fc), "%w") {
+		return
+	}
+	// the varargs slice: look for stores of loads of error globals into its backing array
+	sl, ok := call.Call.Args[1].(*ssa.Slice)
+	if !ok {
+		return
+	}
+	arr, ok := sl.X.(*ssa.Alloc)
+	if !ok || arr.Referrers() == nil {
+		return
+	}
+	for _, ref := range *arr.Referrers() {
+		ia, ok := ref.(*ssa.IndexAddr)
+		if !ok || ia.Referrers() == nil {
+			continue
+		}
+		for _, r2 := range *ia.Referrers() {
+			st, ok := r2.(*ssa.Store)
+			if !ok {
+				continue
+			}
+			v := st.Val
+			if ci, ok := v.(*ssa.ChangeInterface); ok {
+				v = ci.X
+			}
+			if un, ok := v.(*ssa.UnOp); ok {
+				if bg, ok := un.X.(*ssa.Global); ok {
+					w.derivedFrom = append(w.derivedFrom, [2]string{pkg + "." + g.Name(), pkg + "." + bg.Name()})
+				}
+			}
+		}
+	}
 }
 
 func constantString(c *ssa.Const) string {
